@@ -60,6 +60,9 @@ def type_of(kind):
     if kind not in _TYPES:
         def ctor(*a, nodes=None, rule_name="", root=False, _k=kind, **kw):
             if a and isinstance(a[0], str) and nodes is None: kw.setdefault("to_match", a[0]); a = a[1:]
+            if isa(_k, "Match"):            # what Arpeggio's Match classes keep: the pattern, its display text, a compile step
+                if _k == "RegExMatch": kw.setdefault("to_match_regex", kw.get("to_match")); kw["to_match"] = kw.get("str_repr") or kw.get("to_match")
+                kw.setdefault("ignore_case", None); kw.setdefault("compile", pyeval.PyFn(lambda: None))
             return E(_k, *(list(nodes) if nodes is not None else list(a)), rule_name=rule_name, root=root, **kw)
         _TYPES[kind] = pyeval.PyFn(ctor)
     return _TYPES[kind]
